@@ -1527,8 +1527,8 @@ CHECKS = {'chain': check_chain, 'ctor': check_ctor, 'evo': check_evo, 'iapply': 
 
 
 def ext_cases(ctx, rng, boost=1.0):
-    counts = {'chain': ctx.pick(60, 540), 'ctor': ctx.pick(28, 224), 'evo': ctx.pick(12, 72), 'iapply': ctx.pick(8, 64), 'ienv': ctx.pick(12, 108),
-              'opts': ctx.pick(16, 128)}
+    counts = {'chain': ctx.pick(60, 324), 'ctor': ctx.pick(28, 140), 'evo': ctx.pick(12, 48), 'iapply': ctx.pick(8, 40), 'ienv': ctx.pick(12, 60),
+              'opts': ctx.pick(16, 80)}
     out = []
     for sub, n in counts.items():
         out += [GENS[sub](rng, i) for i in range(int(n * boost))]
